@@ -888,4 +888,62 @@ func corpusHandmade() {
 		c.setSig(pushForm([]byte{0x00}, 0))
 		run(c)
 	})
+
+	// ---- the hash-type byte of an ECDSA signature, ALL 256 values (consensus flags: no STRICTENC, so none is refused):
+	// bits 0..4 select NONE (2) / SINGLE (3) / ALL (everything else), bit 7 ANYONECANPAY, bits 5..6 only enter the
+	// message. Each spend form × two transaction shapes (input under test WITH and WITHOUT an output of its index),
+	// signed over the reference digest: valid. Then the same spend with a part of the transaction changed AFTER signing;
+	// whether it stays valid is the rule "what does this hash type commit to", written down here independently:
+	//   output 0 changed       — still valid iff NONE, or SINGLE and the input's own output is not output 0
+	//   input 0's sequence changed (not the input under test) — still valid iff ANYONECANPAY, NONE or SINGLE
+	type htForm struct {
+		name string
+		pk   []byte
+		sign func(c *Case, ht byte)
+	}
+	wsScr := cat(pushData(k2.Pub), []byte{0xac})
+	forms := []htForm{
+		{"p2pkh", p2pkh(k1.Pub), func(c *Case, ht byte) {
+			c.setSig(cat(pushData(signLegacy(c, p2pkh(k1.Pub), k1, ht)), pushData(k1.Pub)))
+		}},
+		{"p2wpkh", p2wpkh(k1.Pub), func(c *Case, ht byte) { c.setWit(signWitV0(c, p2pkh(k1.Pub), k1, ht), k1.Pub) }},
+		{"p2wsh-checksig", p2wsh(wsScr), func(c *Case, ht byte) { c.setWit(signWitV0(c, wsScr, k2, ht), wsScr) }},
+	}
+	shapes := []struct{ nIns, nOuts, idx int }{{2, 2, 1}, {3, 1, 2}}
+	for _, f := range forms {
+		for si, sh := range shapes {
+			for h := 0; h < 256; h++ {
+				ht := byte(h)
+				if r.Tier != "thorough" && si == 1 && h%32 > 4 && h%32 < 30 {
+					continue // quick: the second shape only around the boundaries of the five-bit field
+				}
+				mk := func(variant string) *Case {
+					c := multi(fmt.Sprintf("hashtype:%s-%din%dout-%s", f.name, sh.nIns, sh.nOuts, variant), f.pk, consensusFlags, sh.nIns, sh.nOuts, sh.idx)
+					c.Ins[sh.idx].Sequence = 0xfffffffe
+					c.Ins[0].Sequence = 0xfffffffd
+					c.Note = fmt.Sprintf("hash type %#02x", ht)
+					f.sign(c, ht)
+					return c
+				}
+				c := mk("signed")
+				c.Expect = "OK"
+				run(c)
+				base := ht & 0x1f
+				c = mk("output0-changed")
+				c.Outs[0].Value++
+				c.Expect = "ERR"
+				if base == 2 || (base == 3 && sh.idx != 0) {
+					c.Expect = "OK"
+				}
+				run(c)
+				c = mk("other-sequence-changed")
+				c.Ins[0].Sequence ^= 1
+				c.Expect = "ERR"
+				if ht&0x80 != 0 || base == 2 || base == 3 {
+					c.Expect = "OK"
+				}
+				run(c)
+			}
+		}
+	}
 }
